@@ -1476,6 +1476,21 @@ Lemma dec_LcBootstrapKey_total b : dec_LcBootstrapKey b <> Panic. Proof. unfold 
 Lemma dec_LcSlotKey_total b : dec_LcSlotKey b <> Panic. Proof. unfold dec_LcSlotKey. np. Qed.
 
 
+Lemma split_chunks_total n : forall k buf, (k * n <= length buf)%nat -> split_chunks k n buf <> Panic.
+Proof.
+  induction k as [|k IH]; intros buf H; cbn [split_chunks]; [discriminate|].
+  replace (length (firstn n buf) <? n)%nat with false by (symmetry; apply Nat.ltb_ge; rewrite firstn_length; lia).
+  destruct (split_chunks k n (skipn n buf)) eqn:E; cbn [bind]; try discriminate.
+  apply IH in E; [destruct E|]. rewrite skipn_length. lia.
+Qed.
+Lemma dec_BodyLegacy_total s b : dec_BodyLegacy s b <> Panic. Proof. unfold dec_BodyLegacy. np. Qed.
+Lemma dec_BodyShanghai_total s b : dec_BodyShanghai s b <> Panic. Proof. unfold dec_BodyShanghai. np. Qed.
+Lemma dec_EpochAcc_total b : dec_EpochAcc b <> Panic.
+Proof.
+  unfold dec_EpochAcc. destruct (nlen b =? 524288) eqn:E; cbn [negb]; [|discriminate].
+  apply split_chunks_total. unfold nlen in E. lia.
+Qed.
+
 Lemma rmap_total {A B} (f : A -> B) (r : res A) : r <> Panic -> rmap f r <> Panic.
 Proof. unfold rmap. destruct r; cbn [bind]; [discriminate|discriminate|auto]. Qed.
 
@@ -1490,7 +1505,8 @@ Proof.
           | apply dec_HashesAcc_total | apply dec_Proof4_total | apply dec_HeaderWithProof_total | apply dec_FindEphKey_total
           | apply dec_EphPayload_total | apply dec_OfferEphKey_total | apply dec_OfferEphHeader_total
           | apply dec_Receipts_total | apply dec_HeaderRecord_total
-          | apply dec_LcUpdateKey_total | apply dec_LcBootstrapKey_total | apply dec_LcSlotKey_total ].
+          | apply dec_LcUpdateKey_total | apply dec_LcBootstrapKey_total | apply dec_LcSlotKey_total
+          | apply dec_BodyLegacy_total | apply dec_BodyShanghai_total | apply dec_EpochAcc_total ].
 Qed.
 
 Lemma portalwire_decoders_total : forall s b,
@@ -1872,3 +1888,272 @@ Qed.
 Lemma LcBootstrapKey_codec : codec_ok enc_LcBootstrapKey dec_LcBootstrapKey (fun _ => True) OfferEphKey_lim.
 Proof. exact OfferEphKey_codec. Qed.
 
+
+(* ================================================================== EpochAccumulator *)
+Definition vecn_lim (cnt n : nat) (l : list bytes) : Prop := length l = cnt /\ Forall (fun c => length c = n) l.
+
+Lemma vecn_items_in n l : Forall (fun c => length c = n) l -> vec_items (N.of_nat n) l = Ok (concat l).
+Proof.
+  induction 1 as [|c l Hc _ IH]; [reflexivity|]. cbn [vec_items concat].
+  replace (nlen c =? N.of_nat n) with true by (unfold nlen; lia). cbn [negb]. rewrite IH. reflexivity.
+Qed.
+Lemma vecn_items_inv n l : forall b, vec_items (N.of_nat n) l = Ok b -> b = concat l /\ Forall (fun c => length c = n) l.
+Proof.
+  induction l as [|c l IH]; intros b; cbn [vec_items concat].
+  - intros H; apply Ok_inj in H. subst. split; constructor.
+  - destruct (nlen c =? N.of_nat n) eqn:E; cbn [negb]; [|discriminate].
+    destruct (vec_items (N.of_nat n) l) as [t| |] eqn:Et; cbn [bind]; try discriminate.
+    intros H; apply Ok_inj in H. subst b. destruct (IH t eq_refl) as [-> Hf]. split; [reflexivity|].
+    constructor; [unfold nlen in E; lia|exact Hf].
+Qed.
+Lemma vecn_items_total n l : vec_items n l <> Panic.
+Proof.
+  induction l as [|c l IH]; cbn [vec_items]; [discriminate|]. destruct (negb (nlen c =? n)); [discriminate|].
+  destruct (vec_items n l); cbn [bind]; try discriminate. exact IH.
+Qed.
+
+Lemma split_chunks_layout n l : Forall (fun c => length c = n) l -> forall r, split_chunks (length l) n (concat l ++ r) = Ok l.
+Proof.
+  induction 1 as [|c l Hc _ IH]; intros r; [reflexivity|]. cbn [length split_chunks concat]. rewrite <- app_assoc.
+  rewrite (firstn_app_exact c _ n Hc), (skipn_app_exact c _ n Hc), Hc, Nat.ltb_irrefl, IH. reflexivity.
+Qed.
+Lemma split_chunks_inv n : forall k buf cs, split_chunks k n buf = Ok cs ->
+  length cs = k /\ Forall (fun c => length c = n) cs /\ concat cs = firstn (k * n) buf.
+Proof.
+  induction k as [|k IH]; intros buf cs H; cbn [split_chunks] in H.
+  - apply Ok_inj in H. subst. repeat split; constructor.
+  - destruct (length (firstn n buf) <? n)%nat eqn:E; [discriminate|]. apply Nat.ltb_ge in E.
+    destruct (split_chunks k n (skipn n buf)) as [r| |] eqn:Er; cbn [bind] in H; try discriminate.
+    apply Ok_inj in H. subst cs. destruct (IH _ _ Er) as (I1 & I2 & I3).
+    assert (L : length (firstn n buf) = n) by (rewrite firstn_length in *; lia).
+    split; [simpl; lia|]. split; [constructor; assumption|]. cbn [concat]. rewrite I3.
+    replace (S k * n)%nat with (n + k * n)%nat by lia.
+    rewrite <- (firstn_skipn n buf) at 3. rewrite firstn_app, firstn_firstn, L.
+    replace (Nat.min (n + k * n) n) with n by lia. replace (n + k * n - n)%nat with (k * n)%nat by lia. reflexivity.
+Qed.
+
+Definition EpochAcc_lim (l : list bytes) : Prop := vecn_lim (N.to_nat 8192) 64 l.
+Lemma EpochAcc_codec : codec_ok enc_EpochAcc dec_EpochAcc (fun _ => True) EpochAcc_lim.
+Proof.
+  apply (derive_codec_ok _ _ (fun l : list bytes => concat l)); unfold EpochAcc_lim, vecn_lim, enc_EpochAcc, enc_vector.
+  - intros v [H1 H2]. replace (nlen v =? 8192) with true by (unfold nlen; lia). cbn [negb]. exact (vecn_items_in 64 v H2).
+  - apply enc_out_from.
+    + intros v b. destruct (nlen v =? 8192) eqn:E; cbn [negb]; [|discriminate]. intros H.
+      apply (vecn_items_inv 64) in H as [_ H]. split; [unfold nlen in E; lia|exact H].
+    + intros v. destruct (negb (nlen v =? 8192)); [discriminate|apply vecn_items_total].
+  - intros v _ [H1 H2]. unfold dec_EpochAcc. pose proof (concat_length_const 64 v H2) as Hc.
+    replace (nlen (concat v) =? 524288) with true by (unfold nlen; lia). cbn [negb].
+    rewrite <- H1. rewrite <- (app_nil_r (concat v)). now apply split_chunks_layout.
+  - intros b v. unfold dec_EpochAcc. destruct (nlen b =? 524288) eqn:E; cbn [negb]; [|discriminate]. intros H.
+    apply split_chunks_inv in H as (H1 & H2 & H3). rewrite firstn_all2 in H3 by (unfold nlen in E; lia). auto.
+Qed.
+
+(* ================================================================== block bodies *)
+Lemma items_total_eq l : items_total l = total_len l.
+Proof. induction l as [|x l IH]; [reflexivity|]. cbn [items_total total_len]. now rewrite IH. Qed.
+Lemma dyn_layout_len l : nlen (dyn_layout l) = dyn_size l.
+Proof.
+  unfold dyn_layout, dyn_size. rewrite nlen_app, nlen_concat. pose proof (items_total_eq l) as E.
+  assert (H : nlen (offsets_from (4 * nlen l) l) = 4 * nlen l) by (unfold nlen; rewrite offsets_from_length; lia). lia.
+Qed.
+
+Definition BodyLegacy_layout_raw (x u : bytes) : bytes := u32_enc 8 ++ u32_enc (8 + nlen x) ++ x ++ u.
+
+Lemma dec_BodyLegacy_prefix s x u : 8 + nlen x < two32 ->
+  dec_BodyLegacy s (BodyLegacy_layout_raw x u) =
+  bind (dec_dyn_list s x L_Txs (item_bytes_max L_Tx)) (fun txs => bind (dec_bytes_max L_Uncles u) (fun uncles => Ok (txs, uncles))).
+Proof.
+  intros Hb. unfold BodyLegacy_layout_raw. set (o1 := 8 + nlen x).
+  assert (L4 : forall y, length (u32_enc y) = 4%nat) by (intros; unfold u32_enc; apply le_enc_length).
+  set (L := u32_enc 8 ++ u32_enc o1 ++ x ++ u).
+  assert (Hn : nlen L = 8 + nlen x + nlen u) by (unfold L; rewrite !nlen_app; unfold u32_enc; rewrite !nlen_le_enc; lia).
+  unfold dec_BodyLegacy. cbv zeta. rewrite Hn. replace (8 + nlen x + nlen u <? 8) with false by lia.
+  replace (read_offset_at L 0) with (Ok 8 : res N).
+  2:{ symmetry. unfold L. rewrite <- (app_nil_l (u32_enc 8 ++ _)). apply read_offset_at_app; [reflexivity|vm_compute; reflexivity]. }
+  cbn [bind]. replace (8 + nlen x + nlen u <? 8) with false by lia. change (8 =? 8) with true. cbn [negb].
+  replace (read_offset_at L 4) with (Ok o1 : res N).
+  2:{ symmetry. unfold L. apply read_offset_at_app; [apply L4|exact Hb]. }
+  cbn [bind]. replace ((8 + nlen x + nlen u <? o1) || (o1 <? 8)) with false by (unfold o1; lia).
+  replace (between L 8 o1) with (Ok x : res bytes).
+  2:{ symmetry. unfold L. rewrite (app_assoc (u32_enc 8)). apply between_app; rewrite ?nlen_app; unfold u32_enc, o1; rewrite ?nlen_le_enc; lia. }
+  cbn [bind].
+  replace (tail_from L o1) with (Ok u : res bytes).
+  2:{ symmetry. unfold L. rewrite (app_assoc (u32_enc o1)), (app_assoc (u32_enc 8)). apply tail_from_app.
+      rewrite !nlen_app. unfold u32_enc, o1. rewrite !nlen_le_enc. lia. }
+  reflexivity.
+Qed.
+
+Lemma dec_BodyLegacy_split s b v : dec_BodyLegacy s b = Ok v ->
+  exists x u, b = BodyLegacy_layout_raw x u /\ 8 + nlen x < two32.
+Proof.
+  unfold dec_BodyLegacy. cbv zeta. intros H.
+  destruct (nlen b <? 8) eqn:Hs; [discriminate|].
+  explode b 8%nat t. step_in H.
+  match type of H with context [_ <? le_dec ?l] => set (o0 := le_dec l) in *; assert (Ho0 : le_enc 4 o0 = l) by (apply le_enc_of_dec; reflexivity) end.
+  destruct (_ <? o0) eqn:E1 in H; [discriminate|].
+  destruct (o0 =? 8) eqn:E2 in H; cbn [negb] in H; [|discriminate].
+  match type of H with context [_ <? le_dec ?l] => set (o1 := le_dec l) in *; assert (Ho1 : le_enc 4 o1 = l) by (apply le_enc_of_dec; reflexivity);
+    assert (Hlt : o1 < two32) by (pose proof (le_dec_lt l) as B; exact B) end.
+  destruct ((_ <? o1) || (o1 <? o0)) eqn:E3 in H; [discriminate|].
+  rewrite !nlen_cons in *.
+  destruct (between _ o0 o1) as [x| |] eqn:Eb in H; cbn [bind] in H; try discriminate.
+  assert (o0 = 8) by lia. apply between_inv in Eb as (_ & _ & Hx).
+  replace (N.to_nat o0) with 8%nat in Hx by lia. cbn [skipn] in Hx. replace (o1 - o0) with (o1 - 8) in Hx by lia.
+  assert (Lx : nlen x = o1 - 8) by (rewrite Hx; apply nlen_firstn; lia).
+  exists x, (skipn (N.to_nat (o1 - 8)) t). split; [|lia].
+  unfold BodyLegacy_layout_raw, u32_enc. replace 8 with o0 at 1 by assumption. rewrite Ho0. replace (8 + nlen x) with o1 by lia. rewrite Ho1.
+  rewrite Hx. cbn [app]. now rewrite firstn_skipn.
+Qed.
+
+Definition BodyLegacy_wf (v : list bytes * bytes) : Prop := 8 + dyn_size (fst v) < two32.
+Definition BodyLegacy_lim (v : list bytes * bytes) : Prop := dyn_lim L_Txs L_Tx (fst v) /\ nlen (snd v) <= L_Uncles.
+Definition BodyLegacy_layout (v : list bytes * bytes) : bytes := BodyLegacy_layout_raw (dyn_layout (fst v)) (snd v).
+
+Lemma enc_BodyLegacy_inv v b : enc_BodyLegacy v = Ok b -> BodyLegacy_lim v /\ b = BodyLegacy_layout v.
+Proof.
+  destruct v as [t u]. unfold enc_BodyLegacy, BodyLegacy_lim, BodyLegacy_layout, BodyLegacy_layout_raw. cbn [fst snd].
+  rewrite enc_dyn_list_spec. destruct (dyn_ok L_Txs L_Tx t) eqn:E; [|destruct (L_Txs <? nlen t); discriminate]. cbn [bind].
+  unfold enc_bytes_max. destruct (L_Uncles <? nlen u) eqn:E2; [discriminate|]. cbn [bind]. intros H; apply Ok_inj in H. subst b.
+  split; [split; [now apply dyn_ok_iff|lia]|]. rewrite dyn_layout_len, <- !app_assoc. reflexivity.
+Qed.
+
+Lemma BodyLegacy_codec : codec_ok enc_BodyLegacy (dec_BodyLegacy true) BodyLegacy_wf BodyLegacy_lim.
+Proof.
+  apply (derive_codec_ok _ _ BodyLegacy_layout).
+  - intros [t u] [H1 H2]. cbn [fst snd] in *. unfold enc_BodyLegacy, BodyLegacy_layout, BodyLegacy_layout_raw. cbn [fst snd].
+    rewrite (enc_dyn_in _ _ _ H1). cbn [bind]. unfold enc_bytes_max. replace (L_Uncles <? nlen u) with false by lia. cbn [bind].
+    rewrite dyn_layout_len, <- !app_assoc. reflexivity.
+  - apply enc_out_from.
+    + intros v b H. now apply enc_BodyLegacy_inv in H.
+    + intros [t u]. unfold enc_BodyLegacy. rewrite enc_dyn_list_spec. destruct (dyn_ok L_Txs L_Tx t); [|destruct (L_Txs <? nlen t); discriminate].
+      cbn [bind]. unfold enc_bytes_max. destruct (L_Uncles <? nlen u); discriminate.
+  - intros [t u] Hw [H1 H2]. unfold BodyLegacy_wf, BodyLegacy_layout in *. cbn [fst snd] in *.
+    rewrite dec_BodyLegacy_prefix by (rewrite dyn_layout_len; exact Hw).
+    destruct H1 as [Hn Hi]. unfold dyn_size in Hw. rewrite items_total_eq in Hw.
+    rewrite (dec_dyn_list_layout true L_Txs (item_bytes_max L_Tx) (fun x => x) t Hn ltac:(lia) (item_Forall _ _ Hi)). cbn [bind].
+    rewrite map_id. unfold dec_bytes_max. replace (L_Uncles <? nlen u) with false by lia. reflexivity.
+  - intros b [t u] H. destruct (dec_BodyLegacy_split _ _ _ H) as (x & u' & -> & Hb). rewrite dec_BodyLegacy_prefix in H by exact Hb.
+    destruct (dec_dyn_list true x L_Txs (item_bytes_max L_Tx)) as [txs| |] eqn:Ed; cbn [bind] in H; try discriminate.
+    unfold dec_bytes_max in H. destruct (L_Uncles <? nlen u') eqn:Eu; [discriminate|]. cbn [bind] in H.
+    apply Ok_inj in H. injection H as -> ->. apply dec_dyn_inv in Ed as [-> Hl].
+    unfold BodyLegacy_layout, BodyLegacy_wf, BodyLegacy_lim. cbn [fst snd]. rewrite dyn_layout_len in Hb.
+    split; [reflexivity|]. split; [exact Hb|]. split; [exact Hl|lia].
+Qed.
+
+Lemma BodyLegacy_as_found_canonicity_refuted : ~ canonical (dec_BodyLegacy false) enc_BodyLegacy.
+Proof.
+  intros H. specialize (H [x08;x00;x00;x00;x0c;x00;x00;x00;x00;x00;x00;x00] ([], []) eq_refl). vm_compute in H. discriminate.
+Qed.
+
+Definition BodyShanghai_layout_raw (x u w : bytes) : bytes :=
+  u32_enc 12 ++ u32_enc (12 + nlen x) ++ u32_enc (12 + nlen x + nlen u) ++ x ++ u ++ w.
+
+Lemma dec_BodyShanghai_prefix s x u w : 12 + nlen x + nlen u < two32 ->
+  dec_BodyShanghai s (BodyShanghai_layout_raw x u w) =
+  bind (dec_dyn_list s x L_Txs (item_bytes_max L_Tx)) (fun txs =>
+  bind (dec_bytes_max L_Uncles u) (fun uncles =>
+  bind (dec_dyn_list s w L_Withdrawals (item_bytes_max L_Withdrawal)) (fun ws => Ok (txs, uncles, ws)))).
+Proof.
+  intros Hb. unfold BodyShanghai_layout_raw. set (o2 := 12 + nlen x + nlen u). set (o1 := 12 + nlen x).
+  assert (L4 : forall y, length (u32_enc y) = 4%nat) by (intros; unfold u32_enc; apply le_enc_length).
+  set (L := u32_enc 12 ++ u32_enc o1 ++ u32_enc o2 ++ x ++ u ++ w).
+  assert (Hn : nlen L = 12 + nlen x + nlen u + nlen w) by (unfold L; rewrite !nlen_app; unfold u32_enc; rewrite !nlen_le_enc; lia).
+  unfold dec_BodyShanghai. cbv zeta. rewrite Hn. replace (12 + nlen x + nlen u + nlen w <? 12) with false by lia.
+  replace (read_offset_at L 0) with (Ok 12 : res N).
+  2:{ symmetry. unfold L. rewrite <- (app_nil_l (u32_enc 12 ++ _)). apply read_offset_at_app; [reflexivity|vm_compute; reflexivity]. }
+  cbn [bind]. replace (12 + nlen x + nlen u + nlen w <? 12) with false by lia. change (12 =? 12) with true. cbn [negb].
+  replace (read_offset_at L 4) with (Ok o1 : res N).
+  2:{ symmetry. unfold L. apply read_offset_at_app; [apply L4|unfold o1; lia]. }
+  cbn [bind]. replace ((12 + nlen x + nlen u + nlen w <? o1) || (o1 <? 12)) with false by (unfold o1; lia).
+  replace (read_offset_at L 8) with (Ok o2 : res N).
+  2:{ symmetry. unfold L. rewrite (app_assoc (u32_enc 12)). apply read_offset_at_app; [rewrite app_length, !L4; reflexivity|exact Hb]. }
+  cbn [bind]. replace ((12 + nlen x + nlen u + nlen w <? o2) || (o2 <? o1)) with false by (unfold o1, o2; lia).
+  replace (between L 12 o1) with (Ok x : res bytes).
+  2:{ symmetry. unfold L. rewrite (app_assoc (u32_enc o1)), (app_assoc (u32_enc 12)).
+      apply between_app; rewrite ?nlen_app; unfold u32_enc, o1; rewrite ?nlen_le_enc; lia. }
+  cbn [bind].
+  replace (between L o1 o2) with (Ok u : res bytes).
+  2:{ symmetry. unfold L. rewrite (app_assoc (u32_enc o2)), (app_assoc (u32_enc o1)), (app_assoc (u32_enc 12)).
+      apply between_app; rewrite ?nlen_app; unfold u32_enc, o1, o2; rewrite ?nlen_le_enc; lia. }
+  replace (tail_from L o2) with (Ok w : res bytes).
+  2:{ symmetry. unfold L. rewrite (app_assoc x), (app_assoc (u32_enc o2)), (app_assoc (u32_enc o1)), (app_assoc (u32_enc 12)). apply tail_from_app.
+      rewrite !nlen_app. unfold u32_enc, o2. rewrite !nlen_le_enc. lia. }
+  reflexivity.
+Qed.
+
+Lemma dec_BodyShanghai_split s b v : dec_BodyShanghai s b = Ok v ->
+  exists x u w, b = BodyShanghai_layout_raw x u w /\ 12 + nlen x + nlen u < two32.
+Proof.
+  unfold dec_BodyShanghai. cbv zeta. intros H.
+  destruct (nlen b <? 12) eqn:Hs; [discriminate|].
+  explode b 12%nat t. step_in H.
+  match type of H with context [_ <? le_dec ?l] => set (o0 := le_dec l) in *; assert (Ho0 : le_enc 4 o0 = l) by (apply le_enc_of_dec; reflexivity) end.
+  destruct (_ <? o0) eqn:E1 in H; [discriminate|].
+  destruct (o0 =? 12) eqn:E2 in H; cbn [negb] in H; [|discriminate].
+  match type of H with context [_ <? le_dec ?l] => set (o1 := le_dec l) in *; assert (Ho1 : le_enc 4 o1 = l) by (apply le_enc_of_dec; reflexivity) end.
+  destruct ((_ <? o1) || (o1 <? o0)) eqn:E3 in H; [discriminate|].
+  match type of H with context [_ <? le_dec ?l] => set (o2 := le_dec l) in *; assert (Ho2 : le_enc 4 o2 = l) by (apply le_enc_of_dec; reflexivity);
+    assert (Hlt : o2 < two32) by (pose proof (le_dec_lt l) as B; exact B) end.
+  destruct ((_ <? o2) || (o2 <? o1)) eqn:E4 in H; [discriminate|].
+  rewrite !nlen_cons in *.
+  destruct (between _ o0 o1) as [x| |] eqn:Eb in H; cbn [bind] in H; try discriminate.
+  destruct (dec_dyn_list s x L_Txs (item_bytes_max L_Tx)) as [txs| |] in H; cbn [bind] in H; try discriminate.
+  destruct (between _ o1 o2) as [u| |] eqn:Eb2 in H; cbn [bind] in H; try discriminate.
+  assert (o0 = 12) by lia. apply between_inv in Eb as (_ & _ & Hx). apply between_inv in Eb2 as (_ & _ & Hu).
+  replace (N.to_nat o0) with 12%nat in Hx by lia. cbn [skipn] in Hx. replace (o1 - o0) with (o1 - 12) in Hx by lia.
+  replace (N.to_nat o1) with (12 + N.to_nat (o1 - 12))%nat in Hu by lia. cbn [skipn Nat.add] in Hu.
+  assert (Lx : nlen x = o1 - 12) by (rewrite Hx; apply nlen_firstn; lia).
+  assert (Lu : nlen u = o2 - o1) by (rewrite Hu; apply nlen_firstn; rewrite nlen_skipn; lia).
+  exists x, u, (skipn (N.to_nat (o2 - o1)) (skipn (N.to_nat (o1 - 12)) t)). split; [|lia].
+  unfold BodyShanghai_layout_raw, u32_enc. replace 12 with o0 at 1 by assumption. rewrite Ho0.
+  replace (12 + nlen x) with o1 by lia. rewrite Ho1. replace (o1 + nlen u) with o2 by lia. rewrite Ho2.
+  rewrite Hu, Hx. cbn [app]. now rewrite !firstn_skipn.
+Qed.
+
+Definition BodyShanghai_wf (v : list bytes * bytes * list bytes) : Prop :=
+  let '(t, u, w) := v in 12 + dyn_size t + nlen u < two32.
+Definition BodyShanghai_lim (v : list bytes * bytes * list bytes) : Prop :=
+  let '(t, u, w) := v in dyn_lim L_Txs L_Tx t /\ nlen u <= L_Uncles /\ dyn_lim L_Withdrawals L_Withdrawal w.
+Definition BodyShanghai_layout (v : list bytes * bytes * list bytes) : bytes :=
+  let '(t, u, w) := v in BodyShanghai_layout_raw (dyn_layout t) u (dyn_layout w).
+
+Lemma enc_BodyShanghai_inv v b : enc_BodyShanghai v = Ok b -> BodyShanghai_lim v /\ b = BodyShanghai_layout v.
+Proof.
+  destruct v as [[t u] w]. unfold enc_BodyShanghai, BodyShanghai_lim, BodyShanghai_layout, BodyShanghai_layout_raw.
+  rewrite enc_dyn_list_spec. destruct (dyn_ok L_Txs L_Tx t) eqn:E; [|destruct (L_Txs <? nlen t); discriminate]. cbn [bind].
+  unfold enc_bytes_max. destruct (L_Uncles <? nlen u) eqn:E2; [discriminate|]. cbn [bind].
+  rewrite enc_dyn_list_spec. destruct (dyn_ok L_Withdrawals L_Withdrawal w) eqn:E3; [|destruct (L_Withdrawals <? nlen w); discriminate]. cbn [bind].
+  intros H; apply Ok_inj in H. subst b.
+  split; [split; [now apply dyn_ok_iff|split; [lia|now apply dyn_ok_iff]]|]. rewrite dyn_layout_len, <- !app_assoc. reflexivity.
+Qed.
+
+Lemma BodyShanghai_codec : codec_ok enc_BodyShanghai (dec_BodyShanghai true) BodyShanghai_wf BodyShanghai_lim.
+Proof.
+  apply (derive_codec_ok _ _ BodyShanghai_layout).
+  - intros [[t u] w] (H1 & H2 & H3). unfold enc_BodyShanghai, BodyShanghai_layout, BodyShanghai_layout_raw.
+    rewrite (enc_dyn_in _ _ _ H1). cbn [bind]. unfold enc_bytes_max. replace (L_Uncles <? nlen u) with false by lia. cbn [bind].
+    rewrite (enc_dyn_in _ _ _ H3). cbn [bind]. rewrite dyn_layout_len, <- !app_assoc. reflexivity.
+  - apply enc_out_from.
+    + intros v b H. now apply enc_BodyShanghai_inv in H.
+    + intros [[t u] w]. unfold enc_BodyShanghai. rewrite enc_dyn_list_spec. destruct (dyn_ok L_Txs L_Tx t); [|destruct (L_Txs <? nlen t); discriminate].
+      cbn [bind]. unfold enc_bytes_max. destruct (L_Uncles <? nlen u); [discriminate|]. cbn [bind].
+      rewrite enc_dyn_list_spec. destruct (dyn_ok L_Withdrawals L_Withdrawal w); [discriminate|destruct (L_Withdrawals <? nlen w); discriminate].
+  - intros [[t u] w] Hw (H1 & H2 & H3). unfold BodyShanghai_wf, BodyShanghai_layout in *.
+    rewrite dec_BodyShanghai_prefix by (rewrite dyn_layout_len; exact Hw).
+    destruct H1 as [Hn Hi]. unfold dyn_size in Hw. rewrite items_total_eq in Hw.
+    rewrite (dec_dyn_list_layout true L_Txs (item_bytes_max L_Tx) (fun x => x) t Hn ltac:(lia) (item_Forall _ _ Hi)). cbn [bind].
+    rewrite map_id. unfold dec_bytes_max. replace (L_Uncles <? nlen u) with false by lia. cbn [bind].
+    rewrite (dec_dyn_layout true L_Withdrawals L_Withdrawal w ltac:(vm_compute; reflexivity) H3). reflexivity.
+  - intros b [[t u] w] H. destruct (dec_BodyShanghai_split _ _ _ H) as (x & u' & w' & -> & Hb). rewrite dec_BodyShanghai_prefix in H by exact Hb.
+    destruct (dec_dyn_list true x L_Txs (item_bytes_max L_Tx)) as [txs| |] eqn:Ed; cbn [bind] in H; try discriminate.
+    unfold dec_bytes_max in H. destruct (L_Uncles <? nlen u') eqn:Eu; [discriminate|]. cbn [bind] in H.
+    destruct (dec_dyn_list true w' L_Withdrawals (item_bytes_max L_Withdrawal)) as [ws| |] eqn:Ed2; cbn [bind] in H; try discriminate.
+    apply Ok_inj in H. injection H as -> -> ->. apply dec_dyn_inv in Ed as [-> Hl]. apply dec_dyn_inv in Ed2 as [-> Hl2].
+    unfold BodyShanghai_layout, BodyShanghai_wf, BodyShanghai_lim. rewrite dyn_layout_len in Hb.
+    split; [reflexivity|]. split; [exact Hb|]. split; [exact Hl|]. split; [lia|exact Hl2].
+Qed.
+
+Lemma BodyShanghai_as_found_canonicity_refuted : ~ canonical (dec_BodyShanghai false) enc_BodyShanghai.
+Proof.
+  intros H. specialize (H [x0c;x00;x00;x00;x0c;x00;x00;x00;x0c;x00;x00;x00;x00;x00;x00;x00] ([], [], []) eq_refl). vm_compute in H. discriminate.
+Qed.
